@@ -43,10 +43,10 @@ var c05FuncExceptions = map[string]string{
 }
 
 func checkC05(r *Run) {
-	r.Rule("R1", "propagate or convert: every error produced by a call on the render path is, on every path, tested or returned; on its non-nil side the function returns a non-nil error without rejoining the normal flow", 40)
-	r.Rule("R2", "the only tolerance is the typed one (*ErrUnknownIdentifier), only in the prefix/if/else-if/infix evaluators, and in the infix evaluator only for == != && ||", 4)
-	r.Rule("R3", "every fmt.Errorf that is given an error operand wraps it with %w", 2)
-	r.Rule("R4", "error implies empty result: a (string|template.HTML, error) function on the render path never returns a non-empty first result together with a possibly non-nil error", 12)
+	r.Rule("R1", "propagate or convert: every error produced by a call on the render path is, on every path, tested or returned; on its non-nil side the function returns a non-nil error without rejoining the normal flow", 15)
+	r.Rule("R2", "the only tolerance is the typed one (*ErrUnknownIdentifier), only in the prefix/if/else-if/infix evaluators, and in the infix evaluator only for == != && ||", 1)
+	r.Rule("R3", "every fmt.Errorf that is given an error operand wraps it with %w", 1)
+	r.Rule("R4", "error implies empty result: a (string|template.HTML, error) function on the render path never returns a non-empty first result together with a possibly non-nil error", 5)
 	r.Rule("R5", "the reflect call site inspects the trailing error result and returns before the first result is used", 1)
 	w := r.W
 	w.SSA()
